@@ -329,6 +329,15 @@ Theorem C06_auto_swap_site_permutation : forall L i j, i <> j -> i < L -> j < L 
 Proof. exact auto_swap_order_spec. Qed.
 Print Assumptions C06_auto_swap_site_permutation.
 
+(* gate_with_auto_swap hands the caller's compression options to EVERY split it performs
+   (swaps towards, gate split, swaps back) - a request for no truncation is honoured throughout *)
+Theorem C06_auto_swap_forwards_options : forall (O : Type) i j sb (o : O),
+  Forall (fun c => snd c = o) (auto_swap_splits i j sb o)
+  /\ length (auto_swap_splits i j sb o)
+     = let d := Nat.max i j - Nat.min i j - 1 in if sb then 2 * d + 1 else d + 1.
+Proof. exact auto_swap_forwards_options. Qed.
+Print Assumptions C06_auto_swap_forwards_options.
+
 (* the lazy gate tensor is flagged as an isometry (left_inds) although the gate is
    not one (DESIGN F16; known finding gate_inds:lazy:left_inds_flag:nonunitary) *)
 Theorem C06_gate_flag_refuted : exists a b c d bnds, iso2 a b c d = false /\ lazy_left_inds bnds <> None.
